@@ -1,5 +1,7 @@
 import Moclo.Proofs.RevComp
 import Moclo.Proofs.GenericReport
+import Moclo.Proofs.AssembleRc
+import Moclo.Proofs.AllRuns
 import Moclo.Tables.Enzymes
 /-!
 # C12 — strand symmetry: reverse-complemented inputs give the reverse complement
@@ -18,9 +20,9 @@ Proved for every geometry and every record:
   generic class reports about the reverse complement of a record is the mirror image of what it reports about
   the record (`report_rc`): same verdict, overhangs exchanged and reverse-complemented, target and
   placeholder reverse-complemented.
-**Partial** (decided by the correspondence check and the metamorphic oracle on the implementation, not yet a
-theorem): the lift of the above through `assemble` (the product of the reverse complements is a rotation of
-the reverse complement of the product).  The duplicate screen of the implementation is *not* strand-symmetric when the vector's
+* `assemble_rc`: the lift through `assemble` — assembling the reverse complements succeeds along the reversed
+  chain (`graph_rc`) and the product is, up to rotation and letter case, the reverse complement of the
+  original product.  The duplicate screen of the implementation is *not* strand-symmetric when the vector's
 upstream overhang clashes (known finding, DESIGN §8); the assembly-level statement needs "no reverse-
 complementary pair among all junction overhangs".
 -/
@@ -209,6 +211,119 @@ theorem valid_rc (kind : Kind) (g : Geom) (w : Word) (hnp : g.site ≠ rcNt g.si
   rcases report_rc kind g w hnp hs hu hu' with ⟨h1, h2⟩ | ⟨a, b, c, B, h1, h2⟩
   · rw [h1, h2]
   · rw [h1, h2]; rfl
+
+/-- what an entity reports determines its place in the overhang graph and the fragment it contributes -/
+theorem ent_of_report {e : Ent} {u d t ph : Word} (h : C02.report e.spec e.rcd.seq = .ok (u, d, t, ph)) :
+    e.gmod = .ok ⟨upperW u, upperW d, e.oid⟩ ∧ e.fragment = t := by
+  unfold C02.report at h
+  unfold Ent.gmod Ent.fragment fragmentOf
+  cases hm : e.spec.matchSeq e.rcd.seq with
+  | error x => rw [hm] at h; cases h
+  | ok m =>
+    rw [hm] at h
+    simp only [Except.map, Except.ok.injEq, Prod.mk.injEq] at h
+    obtain ⟨rfl, rfl, rfl, _⟩ := h
+    exact ⟨rfl, rfl⟩
+
+/-- the graph of the other strand (C03's walk on flipped modules) -/
+theorem graph_rc {O : Type} [DecidableEq O] {rcO : O → O} (hinv : ∀ x, rcO (rcO x) = x) {vUp vDown : O}
+    {mods chain : List (GMod O)} (hid : SameObj mods) (h : gAssemble rcO vUp vDown mods = .ok (chain, []))
+    (hJ : ∀ m ∈ mods, ∀ m' ∈ mods, m'.stop ≠ rcO m.stop) :
+    gAssemble rcO (rcO vDown) (rcO vUp) (mods.map (GMod.flip rcO)) = .ok (chain.reverse.map (GMod.flip rcO), []) :=
+  gAssemble_rc hinv hid h hJ
+
+/-- a generic entity (module or vector over a non-palindromic site) and its reverse complement, each carrying
+the structure exactly once -/
+structure Twin (kind : Kind) (e e' : Ent) : Prop where
+  geom : ∃ g : Geom, e.spec = { kind := kind, pat := genericStructure kind g, geom := g } ∧
+    g.site ≠ rcNt g.site ∧ 1 ≤ g.site.length
+  spec : e'.spec = e.spec
+  oid : e'.oid = e.oid
+  seq : e'.rcd.seq = rc e.rcd.seq
+  fit : UniqueFit e.spec.pat e.rcd.seq
+  fit' : UniqueFit e.spec.pat (rc e.rcd.seq)
+
+theorem modRc_of_twin {e e' : Ent} (h : Twin .module e e') {ge : GMod Word} (hv : e.gmod = .ok ge) :
+    ∃ a b c, ModRc e e' a b c := by
+  obtain ⟨g, hspec, hnp, hs⟩ := h.geom
+  have hf := h.fit; have hf' := h.fit'
+  rw [hspec] at hf hf'
+  rcases report_rc .module g e.rcd.seq hnp hs hf hf' with ⟨h1, _⟩ | ⟨a, b, c, B, h1, h2⟩
+  · -- rejected: contradicts `hv`
+    exfalso
+    rw [← hspec] at h1
+    unfold C02.report at h1
+    unfold Ent.gmod at hv
+    cases hm : e.spec.matchSeq e.rcd.seq with
+    | error x => rw [hm] at hv; cases hv
+    | ok m => rw [hm] at h1; cases h1
+  · rw [← hspec] at h1 h2
+    simp only [shape] at h1 h2
+    obtain ⟨g1, f1⟩ := ent_of_report h1
+    have h2' : C02.report e'.spec e'.rcd.seq = .ok (rc c, rc a, rc c ++ rc b, rc c ++ rc b) := by
+      rw [h.spec, h.seq]; exact h2
+    obtain ⟨g2, f2⟩ := ent_of_report h2'
+    exact ⟨a, b, c, ⟨g1, f1, by rw [g2, h.oid], f2, h.oid⟩⟩
+
+theorem vecRc_of_twin {v v' : Ent} (h : Twin .vector v v') {gv : GMod Word} (hv : v.gmod = .ok gv) :
+    ∃ a c B, VecRc v v' a c B := by
+  obtain ⟨g, hspec, hnp, hs⟩ := h.geom
+  have hf := h.fit; have hf' := h.fit'
+  rw [hspec] at hf hf'
+  rcases report_rc .vector g v.rcd.seq hnp hs hf hf' with ⟨h1, _⟩ | ⟨a, b, c, B, h1, h2⟩
+  · exfalso
+    rw [← hspec] at h1
+    unfold C02.report at h1
+    unfold Ent.gmod at hv
+    cases hm : v.spec.matchSeq v.rcd.seq with
+    | error x => rw [hm] at hv; cases hv
+    | ok m => rw [hm] at h1; cases h1
+  · rw [← hspec] at h1 h2
+    simp only [shape] at h1 h2
+    obtain ⟨g1, f1⟩ := ent_of_report h1
+    have h2' : C02.report v'.spec v'.rcd.seq = .ok (rc a, rc c, rc a ++ rc B, rc c ++ rc b) := by
+      rw [h.spec, h.seq]; exact h2
+    obtain ⟨g2, f2⟩ := ent_of_report h2'
+    exact ⟨a, c, B, ⟨g1, f1, by rw [g2, h.oid], f2⟩⟩
+
+theorem modRc_of_twins : ∀ {mods mods' : List Ent} {gs : List (GMod Word)},
+    List.Forall₂ (Twin .module) mods mods' → List.Forall₂ (fun e g => e.gmod = .ok g) mods gs →
+    List.Forall₂ (fun e e' => ∃ a b c, ModRc e e' a b c) mods mods' := by
+  intro mods mods' gs hm
+  induction hm generalizing gs with
+  | nil => intro _; exact List.Forall₂.nil
+  | cons ht _ ih =>
+    intro hF
+    cases hF with
+    | cons hg hgs => exact List.Forall₂.cons (modRc_of_twin ht hg) (ih hgs)
+
+/-- **assembling the reverse complements yields the reverse complement**: let an assembly of generic
+entities succeed using every supplied module (distinct objects), each record carrying its structure exactly
+once on each strand, and let no two downstream overhangs be reverse complements of each other (the hypothesis
+the implementation's one-sided duplicate screen needs — known finding F11).  Then assembling the reverse
+complements of the vector and of all the modules succeeds, and its product is, up to rotation and letter case,
+the reverse complement of the original product -/
+theorem assemble_rc {v v' : Ent} {mods mods' : List Ent} {pid pname : Nat} {p : Product} {after : List Rec}
+    (h : assemble v mods pid pname = (.ok p, after)) (hun : p.unused = [])
+    (hoid : (mods.map (·.oid)).Nodup)
+    (hv : Twin .vector v v') (hm : List.Forall₂ (Twin .module) mods mods')
+    (hd : ∀ e ∈ mods', (derefRec e.rcd).isSome) (hdv : (derefRec v'.rcd).isSome)
+    (hf : ∀ e ∈ mods', e.faulty = false) (hvf : v'.faulty = false)
+    (hJ : ∀ e ∈ mods, ∀ e2 ∈ mods, ∀ g g2, e.gmod = .ok g → e2.gmod = .ok g2 → g2.stop ≠ rc g.stop) :
+    ∃ p', (assemble v' mods' pid pname).1 = .ok p' ∧ ∃ r, NtEq p'.rcd.seq ((rc p.rcd.seq).rotate r) := by
+  obtain ⟨gv, gs, _, _, _, h1, _, h3, _⟩ := assemble_ok h
+  obtain ⟨av, cv, B, hvr⟩ := vecRc_of_twin hv h1
+  have hF := (evalPrefix_ok_iff mods gs).mp h3
+  have hm' := modRc_of_twins hm hF
+  exact assemble_rc_twins h hun hoid hvr hm' hd hdv hf hvf hJ
+
+/-- the "exactly one fit" hypotheses are checkable by computation (`allFits` enumerates every fit; the
+correspondence op `FITS` compares the enumeration with Python's `re`) -/
+theorem unique_fit_checkable {p : Pat} {w : Word} (h : (allFits p w).length = 1 ∧ (allFits p (rc w)).length = 1) :
+    UniqueFit p w ∧ UniqueFit p (rc w) := ⟨uniqueFit_of_count h.1, uniqueFit_of_count h.2⟩
+
+/-! non-vacuity of `report_rc` / `Twin`: the example module carries its structure exactly once on each strand -/
+example : UniqueFit C02.c.pat C02.w ∧ UniqueFit C02.c.pat (rc C02.w) := unique_fit_checkable (by decide)
 
 /-! non-vacuity: the example module of `Moclo.C02` is accepted on both strands, with one fit on each, and the
 overhangs come out exchanged and reverse-complemented -/
